@@ -687,9 +687,71 @@ func (se *symEval) execStmt(fi *FuncInfo, s ast.Stmt) (flow, []sval) {
 	case *ast.ForStmt:
 		return se.execFor(fi, x)
 	case *ast.RangeStmt:
-		se.fail(x, "range loop")
+		return se.execRange(fi, x)
 	default:
 		se.fail(s, fmt.Sprintf("statement %T", s))
+	}
+	return flNormal, nil
+}
+
+// execRange unrolls a range over a slice (or array) whose length is a constant on this evaluation.
+func (se *symEval) execRange(fi *FuncInfo, x *ast.RangeStmt) (flow, []sval) {
+	info := fi.Pkg.TypesInfo
+	v := se.eval(fi, x.X)
+	n := -1
+	switch {
+	case v.arr != nil:
+		n = len(v.arr.elems) - v.aoff
+	case v.kind == 's' && v.slen != nil:
+		if sl := se.residue(v.slen); sl.isConst() {
+			n = int(sl.k)
+		}
+	}
+	if n < 0 || n > 80 {
+		se.fail(x, "range loop over a sequence whose length is not a small constant")
+		return flNormal, nil
+	}
+	var elemT types.Type
+	if t := info.TypeOf(x.X); t != nil {
+		switch u := t.Underlying().(type) {
+		case *types.Slice:
+			elemT = u.Elem()
+		case *types.Array:
+			elemT = u.Elem()
+		case *types.Pointer:
+			if a, ok := u.Elem().Underlying().(*types.Array); ok {
+				elemT = a.Elem()
+			}
+		}
+	}
+	if elemT == nil {
+		se.fail(x, "range loop over "+exprStr(x.X)+" is not supported")
+		return flNormal, nil
+	}
+	for i := 0; i < n; i++ {
+		if x.Key != nil {
+			se.assignTo(fi, x.Key, sval{kind: 'i', t: tConst(uint64(i)), typ: types.Typ[types.Int]})
+		}
+		if x.Value != nil {
+			var el sval
+			if v.arr != nil {
+				el = v.arr.elems[v.aoff+i]
+			} else {
+				off := mk("add", v.off, tConst(uint64(i)))
+				el = sval{kind: 'i', t: tSym("byte:" + v.base + "[" + off.String() + "]"), typ: elemT}
+			}
+			se.assignTo(fi, x.Value, el)
+		}
+		fl, rets := se.execBlock(fi, x.Body.List)
+		switch fl {
+		case flBreak:
+			return flNormal, nil
+		case flReturn:
+			return fl, rets
+		}
+		if len(se.unsup) > 0 {
+			return flNormal, nil
+		}
 	}
 	return flNormal, nil
 }
